@@ -458,3 +458,204 @@ def c06(X, form, body):
 
 
 ORACLES.update({"c06": c06})
+
+
+# ------------------------------------------------------------------ C07
+import textwrap as _tw
+
+
+def split_macro_args(text):
+    """top-level comma split of the text between '!(' and its ')'; brackets and string literals protect commas.
+    returns list of argument texts, or None when brackets/quotes are not balanced (outside the domain)"""
+    args, cur, stack = [], [], []
+    i, n = 0, len(text)
+    while i < n:
+        c = text[i]
+        if c in "'\"":
+            q = text[i:i + 3] if text[i:i + 3] in ("'''", '"""') else c
+            k = i + len(q)
+            while k < n and text[k:k + len(q)] != q:
+                if text[k] == "\\":
+                    k += 1
+                elif text[k] == "\n" and len(q) == 1:
+                    return None
+                k += 1
+            if k >= n:
+                return None
+            cur.append(text[i:k + len(q)])
+            i = k + len(q)
+            continue
+        if c == "#":
+            return None     # a comment swallows the rest of the line including brackets: kept outside the model
+        if c == "\\":
+            return None
+        if c in "([{":
+            stack.append({"(": ")", "[": "]", "{": "}"}[c])
+        elif c in ")]}":
+            if not stack or stack[-1] != c:
+                return None
+            stack.pop()
+        elif c == "," and not stack:
+            args.append("".join(cur))
+            cur = []
+            i += 1
+            continue
+        cur.append(c)
+        i += 1
+    if stack:
+        return None
+    args.append("".join(cur))
+    return args
+
+
+def _find_calls(tree, attr):
+    return [n for n in ast.walk(tree) if _call_name(n) == attr]
+
+
+def c07_call(X, pre, args_text, post=""):
+    """pre + 'f!(' + args_text + ')' + post : arguments are the verbatim texts between top-level commas"""
+    args = split_macro_args(args_text)
+    if args is None:
+        return None
+    # prefixes that look like string prefixes glue to a following quote; tokens must also be lexable
+    want = [a for a in args if a.strip()]
+    src = f"{pre}f!({args_text}){post}\n"
+    tk, toks = O.run_tokens(X, src)
+    if tk != "ok":
+        return None   # text the tokenizer rejects (e.g. an odd character) cannot be captured: outside the domain
+    if any(t.type == X.tokenize.Token.ERRORTOKEN for t in toks):
+        return None
+    k, t = O.run_parse(X, src, "exec")
+    if k != "ok":
+        return {"kind": "call-macro-rejected", "observed": [k, O.exc_sig(t) if isinstance(t, BaseException) else None], "expected": want, "source": src}
+    calls = sorted(_find_calls(t, "call_macro"), key=lambda c: (c.lineno, c.col_offset))
+    n_expected = 1 + pre.count("!(") + post.count("!(") + sum(a.count("!(") for a in ()) 
+    if len(calls) != n_expected:
+        return {"kind": "call-macro-count", "observed": len(calls), "expected": n_expected, "source": src}
+    tup = calls[pre.count("!(")].args[1]
+    got = [e.value for e in tup.elts] if isinstance(tup, ast.Tuple) else None
+    if got != want:
+        return {"kind": "macro-arguments-differ", "observed": got, "expected": want, "source": src}
+    # the code around the macro is unaffected: same tree as with a trivial argument, positions aside
+    k0, t0 = O.run_parse(X, f"{pre}f!(x){post}\n", "exec")
+    if k0 == "ok":
+        def masked(tree):
+            for c in _find_calls(tree, "call_macro"):
+                c.args[1] = ast.Constant(value="<args>")
+            return ast.dump(tree)
+        if masked(t) != masked(t0):
+            return {"kind": "code-around-macro-differs", "observed": O.first_diff(masked(t), masked(t0)), "expected": "unaffected", "source": src}
+    return None
+
+
+def c07_sub(X, form, cmd, rest):
+    """form + cmd + '!' + rest + closer: the rest of the bracket's text, stripped, as one string"""
+    closer, method = FORMS[form]
+    if any(c in rest for c in "()[]{}'\"#\\`\n") or closer in rest or rest[:1] in ("=", "(", "["):
+        return None
+    src = f"{form}{cmd}!{rest}{closer}\n"
+    tk, toks = O.run_tokens(X, src)
+    if tk != "ok" or any(t.type == X.tokenize.Token.ERRORTOKEN for t in toks):
+        return None
+    k, t = O.run_parse(X, src, "exec")
+    if k != "ok":
+        return {"kind": "subproc-macro-rejected", "observed": [k, O.exc_sig(t) if isinstance(t, BaseException) else None], "expected": [cmd, rest.strip()], "source": src}
+    calls = _find_calls(t, method)
+    if not calls:
+        return {"kind": "subproc-macro-no-call", "observed": ast.dump(t)[:200], "expected": method, "source": src}
+    a = calls[0].args
+    got = [x.value if isinstance(x, ast.Constant) else ast.dump(x)[:40] for x in a]
+    if got != [cmd, rest.strip()]:
+        return {"kind": "subproc-macro-arguments-differ", "observed": got, "expected": [cmd, rest.strip()], "source": src}
+    return None
+
+
+def with_block_model(block_lines):
+    strict = list(block_lines)
+    while strict and (strict[-1].strip() == "" or strict[-1].lstrip().startswith("#")):
+        strict.pop()
+    return _tw.dedent("".join(strict)), _tw.dedent("".join(block_lines))
+
+
+def c07_with(X, header, block, after):
+    """header 'with! ctx:\\n' (any indentation 0), block = indented lines, after = following statements at column 0"""
+    src = header + block + after
+    if not block.endswith("\n") or "\\" in block or "\x0c" in block:
+        return None
+    code = [ln for ln in block.split("\n") if ln.strip() and not ln.lstrip().startswith("#")]
+    if code:
+        ind0 = len(code[0]) - len(code[0].lstrip(" \t"))
+        if ind0 == 0 or any(len(ln) - len(ln.lstrip(" \t")) < ind0 or ln[:ind0] != code[0][:ind0] for ln in code):
+            return None   # every block line must be indented at least like the first one
+    lines = [ln + "\n" for ln in block.split("\n")[:-1]]
+    if not lines or not any(ln.strip() and not ln.lstrip().startswith("#") for ln in lines):
+        return None
+    tk, toks = O.run_tokens(X, src)
+    if tk != "ok" or any(t.type == X.tokenize.Token.ERRORTOKEN for t in toks):
+        return None
+    # split trailing blank/comment lines that precede `after`
+    strict, full = with_block_model(lines)
+    k, t = O.run_parse(X, src, "exec")
+    if k != "ok":
+        return {"kind": "with-macro-rejected", "observed": [k, O.exc_sig(t) if isinstance(t, BaseException) else None], "expected": strict, "source": src}
+    first = t.body[0] if t.body else None
+    calls = _find_calls(first, "enter_macro") if first is not None else []
+    if len(calls) != 1:
+        return {"kind": "with-macro-count", "observed": len(calls), "expected": 1, "source": src}
+    got = calls[0].args[1].value if isinstance(calls[0].args[1], ast.Constant) else None
+    if got != strict:
+        # classify the pinned / known deviations: extra trailing blank or comment lines
+        n_strict = len(lines)
+        while n_strict and (lines[n_strict - 1].strip() == "" or lines[n_strict - 1].lstrip().startswith("#")):
+            n_strict -= 1
+        extra = lines[n_strict:]
+        feat = None
+        if extra and all(x.strip() == "" for x in extra) and got == full:
+            return None      # trailing blank lines inside the block are pinned by the repo's own tests
+        if extra and all(x.strip() == "" or x.lstrip().startswith("#") for x in extra):
+            feat = "with-macro-trailing-comment-lines"
+        v = {"kind": "with-macro-body-differs", "observed": got, "expected": strict, "source": src}
+        if feat:
+            v["feature"] = feat
+        return v
+    if after.strip():
+        ka, ta = O.run_parse(X, after, "exec")
+        if ka == "ok":
+            a = [ast.dump(s) for s in t.body[1:]]
+            b = [ast.dump(s) for s in ta.body]
+            if a != b:
+                return {"kind": "statement-after-macro-differs", "observed": a[:2], "expected": b[:2], "source": src}
+    return None
+
+
+def c07_with1(X, ctx, rest, after):
+    """one-line form: 'with! ctx:' + rest + '\\n' + after ; body = rest + newline"""
+    if "\n" in rest or not rest.strip() or any(c in rest for c in "#\\'\"`") or rest[:1] == "=":
+        return None
+    src = f"with! {ctx}:{rest}\n{after}"
+    tk, toks = O.run_tokens(X, src)
+    if tk != "ok" or any(t.type == X.tokenize.Token.ERRORTOKEN for t in toks):
+        return None
+    depth = 0
+    for c in rest:
+        depth += c in "([{"
+        depth -= c in ")]}"
+        if depth < 0:
+            return None
+    if depth:
+        return None
+    k, t = O.run_parse(X, src, "exec")
+    if k != "ok":
+        return {"kind": "with-macro-rejected", "observed": [k, O.exc_sig(t) if isinstance(t, BaseException) else None], "expected": rest + "\n", "source": src}
+    calls = _find_calls(t, "enter_macro")
+    got = calls[0].args[1].value if calls and isinstance(calls[0].args[1], ast.Constant) else None
+    if got != rest + "\n":
+        return {"kind": "with-macro-body-differs", "observed": got, "expected": rest + "\n", "source": src}
+    if after.strip():
+        ka, ta = O.run_parse(X, after, "exec")
+        if ka == "ok" and [ast.dump(s) for s in t.body[1:]] != [ast.dump(s) for s in ta.body]:
+            return {"kind": "statement-after-macro-differs", "observed": "", "expected": "", "source": src}
+    return None
+
+
+ORACLES.update({"c07_call": c07_call, "c07_sub": c07_sub, "c07_with": c07_with, "c07_with1": c07_with1})
